@@ -45,7 +45,7 @@ type pshape struct {
 	havingRef func(r rrow) bool
 	limit     int // -1 = none
 	prop      string
-	na        int // number of anchors to draw from (0 = the two base anchors)
+	aset      []int // anchors to draw from (nil = the two base anchors); all triples temporal when set
 	orderText string // the ORDER BY clause as written, when it is not the plain rendering of order (repeated keys)
 }
 
@@ -287,7 +287,7 @@ var pipeShapes = []pshape{
 	22: {cs: []xclause{clSAO}, okinds: []int{0}, sel: []proj{pO, {binding: "s", op: "count", alias: "n"}}, groupBy: []string{"o"}, order: []ordKey{{"n", true}, {"o", false}}, limit: 1, prop: "C11"},
 	23: {cs: []xclause{clSAO, clOAZ}, okinds: []int{0}, sel: []proj{pS, {binding: "z", op: "count", alias: "n"}, {binding: "o", op: "count", distinct: true, alias: "m"}}, groupBy: []string{"s"}, limit: -1, prop: "C11"},
 	24: {cs: []xclause{xq(qclause{s: bS, p: bP, o: bO})}, okinds: []int{0}, sel: []proj{pS, {binding: "p"}, {binding: "o", op: "count", alias: "n"}}, groupBy: []string{"s", "p"}, limit: -1, prop: "C11"},
-	30: {cs: []xclause{clSAOT}, okinds: []int{0}, temporal: true, na: 3, sel: []proj{{binding: "t"}, {binding: "s", op: "count", alias: "n"}}, groupBy: []string{"t"}, limit: -1, prop: "C11x"},
+	30: {cs: []xclause{clSAOT}, okinds: []int{0}, temporal: true, aset: []int{0, 2, 3}, sel: []proj{{binding: "t"}, {binding: "s", op: "count", alias: "n"}}, groupBy: []string{"t"}, limit: -1, prop: "C11x"},
 	// ---- the single open clause ?s ?p ?o (the only shape whose LIMIT is pushed into the driver lookup)
 	33: {cs: []xclause{xq(qclause{s: bS, p: bP, o: bO})}, okinds: []int{0}, sel: []proj{pS, {binding: "p"}, pO}, having: "?s = /u<b>", havingRef: func(r rrow) bool { return r["s"].b == 'b' }, limit: 1, prop: "C13"},
 	34: {cs: []xclause{xq(qclause{s: bS, p: bP, o: bO})}, okinds: []int{0}, sel: []proj{pS, {binding: "o", op: "count", alias: "n"}}, groupBy: []string{"s"}, limit: 1, prop: "C11"},
@@ -296,6 +296,7 @@ var pipeShapes = []pshape{
 	// ---- C14: a repeated ORDER BY key does not change the order the keys are applied in
 	31: {cs: []xclause{clSAO}, okinds: []int{0}, sel: []proj{pS, pO}, order: []ordKey{{"s", false}, {"o", false}}, orderText: "order by ?s asc, ?o asc, ?s asc", limit: -1, prop: "C14"},
 	32: {cs: []xclause{clSAO}, okinds: []int{0}, sel: []proj{pS, pO}, order: []ordKey{{"o", true}, {"s", false}}, orderText: "order by ?o desc, ?s asc, ?o desc", limit: -1, prop: "C14"},
+	37: {cs: []xclause{clSAOT}, okinds: []int{0}, temporal: true, aset: []int{1, 2, 3}, sel: []proj{pS, {binding: "t"}}, order: []ordKey{{"t", false}}, limit: -1, prop: "C12x"},
 	// ---- C12 again: ORDER BY survives HAVING (the planner sorts first, then filters, then limits); needs three rows
 	25: {cs: []xclause{clSAO}, okinds: []int{0}, sel: []proj{pS, pO}, order: []ordKey{{"s", false}}, having: "not ?o = /u<b>", havingRef: func(r rrow) bool { return r["o"].b != 'b' }, limit: -1, prop: "C12x"},
 	26: {cs: []xclause{clSAO}, okinds: []int{2}, sel: []proj{pS, pO}, order: []ordKey{{"o", true}, {"s", false}}, having: "not ?s = /u<a>", havingRef: func(r rrow) bool { return r["s"].b != 'a' }, limit: 1, prop: "C12x"},
@@ -320,9 +321,9 @@ func HarnessPipeline() {
 	id := sh.prop[:3] + "/e2e"
 	K := 1 + verif.Choice("k", verif.Param("K", 2))
 	data := make([]*dspec, K)
-	allTemporal = sh.na > 0
+	allTemporal = len(sh.aset) > 0
 	for i := range data {
-		data[i] = symDataX("d", sh.temporal, sh.okinds, sh.na)
+		data[i] = symDataX("d", sh.temporal, sh.okinds, sh.aset)
 	}
 	st, _ := newStoreWith("?g", dtriples(data))
 	q := sh.text()
